@@ -2,6 +2,7 @@ package c06
 
 import (
 	"bytes"
+	"crypto/ecdsa"
 	"fmt"
 	"math/big"
 
@@ -109,9 +110,9 @@ func (b *base) tryRS(c *mon.Case, label string, r, s *big.Int) {
 
 // candidate families; the thorough tier sweeps every content octet and splits
 // that sweep into four cases per integer to keep each case short
-var soundFamilies = []string{"framing", "der-edits", "body-r", "body-s", "values", "foreign", "random"}
+var soundFamilies = []string{"framing", "der-edits", "body-r", "body-s", "values", "foreign", "random", "badkey"}
 var soundFamiliesThorough = []string{"framing", "der-edits", "body-r/0", "body-r/1", "body-r/2", "body-r/3",
-	"body-s/0", "body-s/1", "body-s/2", "body-s/3", "values", "foreign", "random"}
+	"body-s/0", "body-s/1", "body-s/2", "body-s/3", "values", "foreign", "random", "badkey"}
 
 func sound(x *mon.Ctx) {
 	selfTest(x)
@@ -148,6 +149,8 @@ func sound(x *mon.Ctx) {
 					b.foreign(c)
 				case "random":
 					b.random(c)
+				case "badkey":
+					b.badKeys(c)
 				}
 			}
 			c.End()
@@ -494,4 +497,69 @@ func (b *base) random(c *mon.Case) {
 		b.try(c, fmt.Sprintf("splice of %d random bytes at %d", l, at), cand)
 	}
 	c.Event("random_sweeps", 1)
+}
+
+// badKeys: the valid signature (and a few relatives) offered under verification
+// keys that are not points of the curve. No signature satisfies the verification
+// equation under such a key, so every entry point must answer false (and return).
+// The keys are derived from the signer's point P = (x, y): off-curve neighbours,
+// swapped and zero coordinates, negative coordinates, coordinates lifted by p
+// (aliases that do not fit the field) and the all-zero pair.
+func (b *base) badKeys(c *mon.Case) {
+	P := b.in.k.P
+	p := ec.P
+	type bk struct {
+		name string
+		x, y *big.Int
+	}
+	small := ec.BaseMul(big64(int64(2 + c.R.Intn(1000)))) // another genuine point, for mixed coordinates
+	cands := []bk{
+		{"y+1", P.X, add(P.Y, one)},
+		{"x+1", add(P.X, one), P.Y},
+		{"swapped", P.Y, P.X},
+		{"(0,0)", big64(0), big64(0)},
+		{"(x,0)", P.X, big64(0)},
+		{"(0,y)", big64(0), P.Y},
+		{"(-x,y)", new(big.Int).Neg(P.X), P.Y},
+		{"(x,-y)", P.X, new(big.Int).Neg(P.Y)},
+		{"(x+p,y)", add(P.X, p), P.Y},
+		{"(x,y+p)", P.X, add(P.Y, p)},
+		{"(x,y) of two points mixed", P.X, small.Y},
+		{"y bit flipped", P.X, new(big.Int).Xor(P.Y, new(big.Int).Lsh(one, uint(c.R.Intn(256))))},
+		{"x bit flipped, y kept", new(big.Int).Xor(P.X, new(big.Int).Lsh(one, uint(c.R.Intn(256)))), P.Y},
+		{"(x, 2^256-1)", P.X, sub(two56, one)},
+	}
+	for _, k := range cands {
+		// skip the (astronomically unlikely) candidate that is a genuine point of the curve
+		xr, yr := new(big.Int).Mod(k.x, p), new(big.Int).Mod(k.y, p)
+		if k.x.Sign() >= 0 && k.y.Sign() >= 0 && k.x.Cmp(p) < 0 && k.y.Cmp(p) < 0 && ec.OnCurve(xr, yr) {
+			c.Event("badkey_candidate_is_a_point_skipped", 1)
+			continue
+		}
+		pub := &ecdsa.PublicKey{Curve: sm2.P256(), X: new(big.Int).Set(k.x), Y: new(big.Int).Set(k.y)}
+		in := b.in
+		for _, v := range []struct {
+			name string
+			f    func() bool
+		}{
+			{"VerifyASN1", func() bool { return sm2.VerifyASN1(pub, in.e, b.sig) }},
+			{"Verify", func() bool { return sm2.Verify(pub, in.e, b.r, b.s) }},
+			{"VerifyASN1WithSM2", func() bool { return sm2.VerifyASN1WithSM2(pub, in.uid, in.msg, b.sig) }},
+			{"VerifyWithSM2", func() bool { return sm2.VerifyWithSM2(pub, in.uid, in.msg, b.r, b.s) }},
+		} {
+			if !in.hasMsg && (v.name == "VerifyASN1WithSM2" || v.name == "VerifyWithSM2") {
+				continue
+			}
+			var ok bool
+			c.Event("candidates", 1)
+			c.Event("badkey_verify_calls", 1)
+			if c.Call(v.name+" under invalid key "+k.name, func() { ok = v.f() }) && ok {
+				c.Detail("key_x", k.x.Text(16))
+				c.Detail("key_y", k.y.Text(16))
+				c.Detail("candidate", b.sig)
+				c.Fail("accept", "%s accepts a signature under the verification key %s = (%s, %s), which is not a point of the curve", v.name, k.name, k.x.Text(16), k.y.Text(16))
+			}
+		}
+	}
+	c.Event("badkey_sweeps", 1)
 }
